@@ -123,6 +123,7 @@ def showOutcome : Outcome → String
   | .errProvider => "err:provider"
   | .errBoth => "err:both"
   | .errTlsVerify => "err:tls-verify"
+  | .errNoChallenger => "err:no-challenger"
   | .crash => "crash"
 
 def showCall : Call → String
@@ -266,8 +267,7 @@ def step (_ : Unit) (ws : List String) : Unit × String :=
   -- property monitors evaluated by the harness on the OBSERVED trace (see harness/cmd/c20/child.go `monitor`):
   -- every trace of the model satisfies them (C20_auth_resolution, C20_no_credentials_no_session,
   -- C20_ready_only_after_success, C20_credentials_per_host, C20_custom_tokens_in_order, C20_challenge_requests,
-  -- C20_success_error_fails), so the model's answer is `ok` — except on the known fatal inputs
-  -- (C20_no_crash_partial / C20_cex_nil_challenger), where model and code both die
+  -- C20_success_error_fails, C20_no_crash), so the model's answer is `ok`
   | "mon" :: h :: st :: pv :: fs => match parseConn h st pv, fs.mapM parseFrame with
     | some (h, cfg), some fs =>
       if cfg.static.isSome && cfg.provider.isSome then "bad-op"
